@@ -8,6 +8,7 @@ import (
 	"net"
 	"net/http"
 
+	"github.com/google/martian/v3/mitm"
 	"github.com/google/martian/v3/zzverif/vf"
 )
 
@@ -298,6 +299,14 @@ func VerifC02Connect() {
 	})
 	p.SetRequestModifier(m)
 	p.SetResponseModifier(m)
+	// a hijacking modifier on a proxy that would otherwise intercept the tunnel: the CONNECT is
+	// answered by the proxy itself (nothing is dialled) and no handshake takes place
+	mitmOn := false
+	if nb := zznorm(behave[0]); nb == zzbHijackReq || nb == zzbHijackRes {
+		if mitmOn = vf.Choice("mitm-configured", 2) == 1; mitmOn {
+			p.SetMITM(new(mitm.Config))
+		}
+	}
 	zzserveConn(p, conn)
 	vf.Assert(len(m.recs) == 1, "request-modifier-runs-for-the-connect-request")
 	r := m.recs[0]
@@ -307,7 +316,11 @@ func VerifC02Connect() {
 		vf.Assert(dials == 0 && r.resCalls == 0, "hijacked-connect-is-not-dialled")
 		vf.Assert(m.activity() == m.hijackedAt, "no-proxy-io-on-a-hijacked-connection")
 	} else {
-		vf.Assert(dials == 1, "connect-dials-once")
+		if mitmOn {
+			vf.Assert(dials == 0, "intercepted-connect-is-not-dialled")
+		} else {
+			vf.Assert(dials == 1, "connect-dials-once")
+		}
 		vf.Assert(r.resCalls == 1 && r.resRequest == r.req && r.resCtx == r.reqCtx, "response-modifier-once-with-same-request-and-context")
 		got := zzclientView(conn.out.Bytes(), []string{"CONNECT"})
 		if behave[0] == zzbHijackRes {
